@@ -11,7 +11,13 @@ Any number of tasks (`pc : Nat → PC`); a task is a program counter over the aw
                                           task passes the permit on
                `tx.lock()`, assert `tx_ref.is_none()`, `pool.begin().await`, `tx_ref.replace(tx)`
                                           acquired → inTx                 (needs the slot to be empty)
-  tx(f):       one statement inside the open transaction                  inTx ws → inTx (ws ++ [w])
+  tx(f):       `let mut tx_ref = self.tx.lock().await` … `f(tx).await` with the guard alive: two steps,
+               `txEnter h` (slot lock taken, the query is in flight) and `txExit h n bad` (row written, lock
+               released) / `txCancel h` (the query future was dropped). `h` is *any* task: the store's
+               documented pattern lets several processes share one transaction, so a query may be in flight
+               on behalf of a task that does not hold the permit, also while the permit holder drops it.
+               Everybody who takes the transaction out of the slot (`commit`, `rollback`, the clean-up task)
+               needs that lock and therefore waits for a query in flight.
   commit():    `tx.lock().await.take()`  inTx → committing               (the sqlx transaction is now a local)
                `tx.commit().await` ; `permit.mark_committed_and_drop()`   committing → idle, permit free
                future dropped during `tx.commit().await`: SQLite may or may not have committed
@@ -24,24 +30,26 @@ Any number of tasks (`pc : Nat → PC`); a task is a program counter over the aw
 SQLite / sqlx are the assumption "commit applies the transaction's buffer, anything else discards it"; a commit
 of a buffer containing a `bad` write (deferred constraint violation) fails and applies nothing.
 
-Ghost components (`hist`, `aborted`, the `ws` of a program counter = what the task itself wrote in this
-transaction) exist only to state the theorems; no transition is guarded by them.
+Every row carries the number `txn` of the transaction (counted by `opened`) it was written in.
+Ghost components (`hist`, `aborted`, the `txn` tags) exist only to state the theorems; no transition is guarded
+by them. `stash` is always `none` here; it only exists for the counterexample variant `stepFnTakeOut`.
 -/
 namespace P2.TxLts
 
 structure Write where
-  tid : Nat
+  tid : Nat      -- the task that issued the statement
   n : Nat
   bad : Bool
+  txn : Nat      -- ghost: number of the transaction it was issued in
 deriving DecidableEq, Repr
 
 inductive PC where
   | idle
   | waiting
   | acquired
-  | inTx (ws : List Write)
-  | committing (buf : List Write) (ws : List Write)
-  | rollingBack (ws : List Write)
+  | inTx
+  | committing (buf : List Write)
+  | rollingBack
 deriving DecidableEq, Repr
 
 /-- Who owns the single semaphore permit. -/
@@ -61,16 +69,19 @@ deriving DecidableEq, Repr
 structure St where
   db : List Write                      -- committed rows, in commit order
   slot : Option (List Write)           -- `SqliteStore::tx`: the open sqlx transaction (its uncommitted rows)
+  lock : Option Nat                    -- the slot mutex is held by a `tx()` call of this task (query in flight)
+  stash : Option (List Write)          -- only used by `stepFnTakeOut`: a transaction taken out of the slot by `tx()`
   owner : Owner
   spawn : Spawn
   queue : List Nat                     -- tasks parked on the semaphore, in arrival order (tokio: FIFO)
   pc : Nat → PC
-  hist : List (Nat × List Write)       -- ghost: committed transactions in commit order (task, its writes)
-  aborted : List (Nat × List Write)    -- ghost: transactions that ended any other way
+  txn : Nat                            -- ghost: transactions opened so far (= number of the current one)
+  hist : List (Nat × List Write)       -- ghost: committed transactions in commit order (number, rows)
+  aborted : List Nat                   -- ghost: numbers of the transactions that ended any other way
 
 def St.init : St :=
-  { db := [], slot := none, owner := .free, spawn := .none, queue := [], pc := fun _ => .idle, hist := [],
-    aborted := [] }
+  { db := [], slot := none, lock := none, stash := none, owner := .free, spawn := .none, queue := [],
+    pc := fun _ => .idle, txn := 0, hist := [], aborted := [] }
 
 def upd (pc : Nat → PC) (t : Nat) (v : PC) : Nat → PC := fun u => if u = t then v else pc u
 
@@ -79,7 +90,9 @@ inductive Act where
   | opened (t : Nat)
   | cancelWait (t : Nat)
   | cancelAcquired (t : Nat)
-  | write (t n : Nat) (bad : Bool)
+  | txEnter (h : Nat)
+  | txExit (h n : Nat) (bad : Bool)
+  | txCancel (h : Nat)
   | commitTake (t : Nat)
   | commitDone (t : Nat)
   | commitFail (t : Nat)
@@ -109,9 +122,9 @@ def stepFn (s : St) : Act → Option St
     | .idle, _ => some { s with queue := s.queue ++ [t], pc := upd s.pc t .waiting }
     | _, _ => none
   | .opened t =>
-    match s.pc t, s.slot with
-    | .acquired, none => some { s with slot := some [], pc := upd s.pc t (.inTx []) }
-    | _, _ => none   -- with the slot occupied the `assert!` in `begin` panics: shown unreachable (c10_mutex)
+    match s.pc t, s.slot, s.lock with
+    | .acquired, none, none => some { s with slot := some [], txn := s.txn + 1, pc := upd s.pc t .inTx }
+    | _, _, _ => none   -- with the slot occupied the `assert!` in `begin` panics: shown unreachable (c10_mutex)
   | .cancelWait t =>
     match s.pc t with
     | .waiting => some { s with queue := s.queue.erase t, pc := upd s.pc t .idle }
@@ -120,65 +133,74 @@ def stepFn (s : St) : Act → Option St
     match s.pc t with
     | .acquired => some (release { s with pc := upd s.pc t .idle })
     | _ => none
-  | .write t n bad =>
-    match s.pc t, s.slot with
-    | .inTx ws, some buf =>
-      let w : Write := { tid := t, n := n, bad := bad }
-      some { s with slot := some (buf ++ [w]), pc := upd s.pc t (.inTx (ws ++ [w])) }
-    | _, _ => none
+  | .txEnter h =>
+    match s.slot, s.lock with
+    | some _, none => some { s with lock := some h }
+    | _, _ => none     -- no transaction: `TransactionMissing`; lock taken: the call waits
+  | .txExit h n bad =>
+    match s.slot with
+    | some buf =>
+      if s.lock = some h then
+        some { s with slot := some (buf ++ [{ tid := h, n := n, bad := bad, txn := s.txn }]), lock := none }
+      else none
+    | none => none
+  | .txCancel h =>
+    if s.lock = some h then some { s with lock := none } else none
   | .commitTake t =>
-    match s.pc t, s.slot with
-    | .inTx ws, some buf => some { s with slot := none, pc := upd s.pc t (.committing buf ws) }
-    | _, _ => none
+    match s.pc t, s.slot, s.lock with
+    | .inTx, some buf, none => some { s with slot := none, pc := upd s.pc t (.committing buf) }
+    | _, _, _ => none
   | .commitDone t =>
     match s.pc t with
-    | .committing buf ws =>
+    | .committing buf =>
       if noBad buf then
-        some (release { s with db := s.db ++ buf, hist := s.hist ++ [(t, ws)], pc := upd s.pc t .idle })
+        some (release { s with db := s.db ++ buf, hist := s.hist ++ [(s.txn, buf)], pc := upd s.pc t .idle })
       else none
     | _ => none
   | .commitFail t =>
     match s.pc t with
-    | .committing _ ws =>
-      some (release { s with aborted := s.aborted ++ [(t, ws)], pc := upd s.pc t .idle })
+    | .committing _ =>
+      some (release { s with aborted := s.aborted ++ [s.txn], pc := upd s.pc t .idle })
     | _ => none
   | .cancelCommit t applied =>
     match s.pc t with
-    | .committing buf ws =>
+    | .committing buf =>
       if applied then
         if noBad buf then
-          some { s with db := s.db ++ buf, hist := s.hist ++ [(t, ws)], owner := .spawned, spawn := .pending,
+          some { s with db := s.db ++ buf, hist := s.hist ++ [(s.txn, buf)], owner := .spawned, spawn := .pending,
                         pc := upd s.pc t .idle }
         else none
       else
-        some { s with aborted := s.aborted ++ [(t, ws)], owner := .spawned, spawn := .pending,
+        some { s with aborted := s.aborted ++ [s.txn], owner := .spawned, spawn := .pending,
                       pc := upd s.pc t .idle }
     | _ => none
   | .rollbackTake t =>
-    match s.pc t, s.slot with
-    | .inTx ws, some _ => some { s with slot := none, pc := upd s.pc t (.rollingBack ws) }
-    | _, _ => none
+    match s.pc t, s.slot, s.lock with
+    | .inTx, some _, none => some { s with slot := none, pc := upd s.pc t .rollingBack }
+    | _, _, _ => none
   | .rollbackDone t =>
     match s.pc t with
-    | .rollingBack ws =>
-      some (release { s with aborted := s.aborted ++ [(t, ws)], pc := upd s.pc t .idle })
+    | .rollingBack =>
+      some (release { s with aborted := s.aborted ++ [s.txn], pc := upd s.pc t .idle })
     | _ => none
   | .cancelRollback t =>
     match s.pc t with
-    | .rollingBack ws =>
-      some { s with aborted := s.aborted ++ [(t, ws)], owner := .spawned, spawn := .pending,
+    | .rollingBack =>
+      some { s with aborted := s.aborted ++ [s.txn], owner := .spawned, spawn := .pending,
                     pc := upd s.pc t .idle }
     | _ => none
   | .dropPermit t =>
+    -- no lock needed: the permit can be dropped while a query of a task sharing the transaction is in flight
     match s.pc t with
-    | .inTx ws =>
-      some { s with aborted := s.aborted ++ [(t, ws)], owner := .spawned, spawn := .pending,
+    | .inTx =>
+      some { s with aborted := s.aborted ++ [s.txn], owner := .spawned, spawn := .pending,
                     pc := upd s.pc t .idle }
     | _ => none
   | .rbTake =>
-    match s.spawn with
-    | .pending => some { s with slot := none, spawn := .releasing }
-    | _ => none
+    -- `tx.lock().await.take()`: waits for a query in flight
+    match s.spawn, s.lock with
+    | .pending, none => some { s with slot := none, spawn := .releasing }
+    | _, _ => none
   | .rbRelease =>
     match s.spawn with
     | .releasing => some (release { s with spawn := .none })
@@ -191,19 +213,44 @@ def runActs (s : St) : List Act → Option St
     | none => none
     | some s' => runActs s' as
 
-/-- The pinned alternative the harness is designed to catch: `Drop` releases the permit at once and only the
-    rollback is left to the spawned task (what "release before the rollback finishes" would be). Used only for
-    the counterexample in `P2.Props.C10`. -/
+/-- Variant the harness is designed to catch: `Drop` releases the permit at once and only the rollback is left
+    to the spawned task. Used only for the counterexample in `P2.Props.C10`. -/
 def stepFnEarlyRelease (s : St) : Act → Option St
   | .dropPermit t =>
     match s.pc t with
-    | .inTx ws =>
-      some (release { s with aborted := s.aborted ++ [(t, ws)], spawn := .pending, pc := upd s.pc t .idle })
+    | .inTx =>
+      some (release { s with aborted := s.aborted ++ [s.txn], spawn := .pending, pc := upd s.pc t .idle })
     | _ => none
   | .rbRelease =>
     match s.spawn with
     | .releasing => some { s with spawn := .none }
     | _ => none
+  | a => stepFn s a
+
+/-- Variant "do not hold the slot lock across the query": `tx()` takes the transaction out of the slot, runs the
+    query on the local value and puts it back afterwards. The slot is empty while a query is in flight, so
+    nobody waits for it. Used only for the counterexample in `P2.Props.C10`. -/
+def stepFnTakeOut (s : St) : Act → Option St
+  | .txEnter h =>
+    match s.slot, s.stash with
+    | some buf, none => some { s with slot := none, stash := some buf, lock := some h }
+    | _, _ => none
+  | .txExit h n bad =>
+    match s.stash with
+    | some buf =>
+      if s.lock = some h then
+        some { s with slot := some (buf ++ [{ tid := h, n := n, bad := bad, txn := s.txn }]), stash := none,
+                      lock := none }
+      else none
+    | none => none
+  | .rbTake =>
+    match s.spawn with
+    | .pending => some { s with slot := none, spawn := .releasing }
+    | _ => none
+  | .opened t =>
+    match s.pc t, s.slot with
+    | .acquired, none => some { s with slot := some [], txn := s.txn + 1, pc := upd s.pc t .inTx }
+    | _, _ => none
   | a => stepFn s a
 
 end P2.TxLts
